@@ -40,6 +40,7 @@ def dispatch1 (op : String) (j : Json) : R Json :=
   | "hapParse" => hHapParse j
   | "hapHeader" => hHapHeader j
   | "hapQuery" => hHapQuery j
+  | "hapSort" => hHapSort j
   | "gtStore" => hGtStore j
   | "gtRestrict" => hGtRestrict j
   | "subsetRun" => hSubsetRun j
